@@ -295,8 +295,13 @@ class Executor:
                     env[ins_.dest] = self.val(m.group(2).strip(), m.group(1), env)  # type: ignore[index]
                 elif op == "call":
                     m = re.match(r"call\s+(?:[\w\(\)]+\s+)*?(void|i\d+|double|ptr|\{[^}]*\})\s+(?:\([^)]*\)\s+)?@([\w.]+)\((.*)\)", t)
+                    indirect = None
                     if not m:
-                        raise IRUnsupported("call: " + t)
+                        # call through a function pointer held in a register: an uninterpreted call of (pointer, args)
+                        m = re.match(r"call\s+(?:[\w\(\)]+\s+)*?(void|i\d+|double|ptr)\s+(?:\([^)]*\)\s+)?(%[\w.\-]+)\((.*)\)", t)
+                        if not m or "__indirect__" not in self.stubs:
+                            raise IRUnsupported("call: " + t)
+                        indirect = self.val(m.group(2), "ptr", env)
                     rty, callee, argstr = m.group(1), m.group(2), m.group(3)
                     cargs = []
                     for a_ in _split_args(argstr):
@@ -307,6 +312,8 @@ class Executor:
                             cargs.append(self.global_value(gm.group(1), "ptr"))  # constant expression over a global
                         else:
                             cargs.append(self.val(toks[-1], aty, env))
+                    if indirect is not None:
+                        callee, cargs = "__indirect__", [indirect] + cargs
                     rv = self.call(callee, rty, cargs, pc, res, depth, curmem)
                     if isinstance(rv, tuple) and rv and isinstance(rv[0], str) and rv[0] == "__mem__":
                         curmem, rv = rv[1], rv[2]
@@ -338,6 +345,11 @@ class Executor:
                     if ptok.startswith("@"):
                         # load of a global (e.g. PyExc_ZeroDivisionError): an opaque constant per global
                         env[ins_.dest] = self.global_value(ptok, m.group(1))  # type: ignore[index]
+                        continue
+                    cm = re.match(r"load\s+(\S+),\s*ptr\s+((?:bitcast|getelementptr)\b.*@[\w.]+.*?\))\s*(?:,\s*align.*)?$", t)
+                    if cm:
+                        # load of a field of a global (e.g. PyLong_Type.tp_hash): an opaque constant per field expression
+                        env[ins_.dest] = self.global_value("field:" + re.sub(r"\s+", " ", cm.group(2)), cm.group(1))  # type: ignore[index]
                         continue
                     if curmem is None:
                         raise IRUnsupported("load without a memory model: " + t)
